@@ -60,13 +60,14 @@ func errClass(err error) string {
 type sink struct {
 	buf    bytes.Buffer
 	calls  int
-	failAt int // 1-based index of the Write call that fails; 0 = never
+	failAt int  // 1-based index of the Write call that fails; 0 = never
+	once   bool // fail at that call only (a transient failure), instead of from that call on
 	failed bool
 }
 
 func (s *sink) Write(p []byte) (int, error) {
 	s.calls++
-	if s.failAt > 0 && s.calls >= s.failAt {
+	if s.failAt > 0 && (s.calls == s.failAt || (!s.once && s.calls > s.failAt)) {
 		s.failed = true
 		return 0, errInjected
 	}
@@ -277,12 +278,13 @@ func withWatchdog(d time.Duration, f func() string) string {
 type wsCase struct {
 	ops    []string
 	fault  int // sink Write call (counted over the whole session) that fails
+	once   bool
 	wf     bool
 	rdconc int
 }
 
 func (c *wsCase) fields() string {
-	return fmt.Sprintf("ops=%s fault=%d wf=%d rdconc=%d", strings.Join(c.ops, ";"), c.fault, b2i(c.wf), c.rdconc)
+	return fmt.Sprintf("ops=%s fault=%d once=%d wf=%d rdconc=%d", strings.Join(c.ops, ";"), c.fault, b2i(c.once), b2i(c.wf), c.rdconc)
 }
 
 func b2i(b bool) int {
@@ -325,7 +327,7 @@ func readBack(frame []byte, conc int, mode int, r *rng) (out []byte, err error) 
 func runWS(c *wsCase) string {
 	return withWatchdog(8*time.Second, func() string {
 		g0 := runtime.NumGoroutine()
-		sk := &sink{failAt: c.fault}
+		sk := &sink{failAt: c.fault, once: c.once}
 		sinks := []*sink{sk}
 		zw := lz4.NewWriter(sk)
 		var res []string
@@ -409,12 +411,20 @@ func runWS(c *wsCase) string {
 		}
 		obs := fmt.Sprintf("res=%s sinks=%s x_acc=%s x_closed=%s", strings.Join(res, "|"), strings.Join(sb, ","), strings.Join(ab, ","), strings.Join(cb, ","))
 		conc := strings.Contains(c.ops[0], "conc=") && !strings.Contains(c.ops[0], "conc=1,") && !strings.HasSuffix(c.ops[0], "conc=1")
-		if conc && c.fault > 0 {
+		if (conc || c.once) && c.fault > 0 {
 			// with concurrency a sink failure surfaces at a later call: only the oracles apply
 			obs = "x_" + strings.Replace(obs, " sinks=", " x_sinks=", 1)
 		} else if conc && c.ops[len(c.ops)-1] != "C" && c.ops[len(c.ops)-1] != "R" {
 			// blocks still in flight: the sink is only defined once Close has returned
 			obs = strings.Replace(obs, " sinks=", " x_sinks=", 1)
+		}
+		if c.fault == 0 && len(c.ops) > 0 && c.ops[len(c.ops)-1] == "C" {
+			for _, op := range c.ops {
+				if op == "R" {
+					obs += " lastsink=" + sb[len(sb)-1]
+					break
+				}
+			}
 		}
 		// oracles on the implementation's own behaviour
 		// C15: an injected sink failure must be reported by some operation, at the latest by Close
